@@ -2559,6 +2559,18 @@ refill(struct evrrul_s *restrict strm)
 	/* convert to target scale */
 	for (size_t i = 0U; i < strm->ncch; i++) {
 		strm->cch[i] = echs_instant_rescale(strm->cch[i], strm->cal);
+		if (UNLIKELY(strm->cal == SCALE_GREGORIAN &&
+			     strm->cch[i].y >= 2100U)) {
+			/* rules on another scale don't stop by themselves
+			 * where our Gregorian calendar does, the dates from
+			 * here on are no good */
+			strm->ncch = i;
+			strm->e.from = echs_nul_instant();
+			break;
+		}
+	}
+	if (UNLIKELY(strm->ncch == 0UL)) {
+		return 0UL;
 	}
 	/* utcify them all, the fillers worked on wall-clock time */
 	for (size_t i = 0U; strm->zon && i < strm->ncch; i++) {
